@@ -33,6 +33,46 @@ CrossFix(c, St) ==
   ELSE IF c.op = "UploadPartCopy" /\ c.sb = c.b /\ R(1..3) # 1
        THEN [c EXCEPT !.sb = OtherB(c.b), !.sk = PK(St, OtherB(c.b))]
   ELSE c
-CGenNext == GStep(CrossFix(RandCall(RW(COpWSel), S), S)) /\ gcfg' = gcfg
+\* every second copy carries copy-source conditions
+SCW == <<"absent", "absent", "absent", "pass", "fail">>
+WithSC(c) == IF IsCopy(c) /\ R(1..2) = 1
+             THEN c @@ [sc |-> [im |-> RW(SCW), inm |-> RW(SCW), ums |-> RW(SCW), ms |-> RW(SCW)]] ELSE c
+\* a generated step of the model of the MIDDLEWARE's intended behaviour (conditions included)
+CGStep(c) == /\ S' = CApply(S, gcfg, c).s /\ res' = CApply(S, gcfg, c).r /\ hist' = Append(hist, c)
+             /\ sits' = Append(sits, Sit(S, c, CApply(S, gcfg, c).r))
+CGenNext == CGStep(WithSC(CrossFix(RandCall(RW(COpWSel), S), S))) /\ gcfg' = gcfg
+
+\* ---------------------------------------------------------------- copy-source condition cover
+\* ONE program that executes, after a fixed prefix (an object in each bucket, a pending upload in b2), every
+\* situation  {CopyObject, UploadPartCopy} x {source in the other / the same bucket as the destination}
+\*            x the condition combinations in which the S3 precedence rules matter:
+\*              (if-match, if-unmodified-since) in {absent, pass, fail}^2, the other two absent,
+\*              (if-none-match, if-modified-since) in {absent, pass, fail}^2, the other two absent,
+\*              and all four present with each pass / fail pattern of the first pair against the second.
+\* Under a configuration that routes b1 and b2 to different storages the first half are cross-storage copies.
+\* A refused copy changes nothing and a successful one only rewrites the destination, so all situations fit in
+\* one walk; the pipeline always executes it.
+K3 == {"absent", "pass", "fail"}
+SCCombos ==
+  {[im |-> a, inm |-> "absent", ums |-> b, ms |-> "absent"] : a \in K3, b \in K3}
+  \cup {[im |-> "absent", inm |-> a, ums |-> "absent", ms |-> b] : a \in K3, b \in K3}
+  \cup {[im |-> a, inm |-> b, ums |-> c, ms |-> d] : a \in {"pass", "fail"}, b \in {"pass"}, c \in {"pass", "fail"}, d \in {"pass", "fail"}}
+CoverPrefix ==
+  << First, [op |-> "CreateBucket", b |-> "b2"],
+     [op |-> "PutObject", b |-> "b1", k |-> "k1", blob |-> "c1", ctype |-> "t1", meta |-> "none", tags |-> "g1",
+      class |-> "none", cond |-> "none", cksum |-> "none"],
+     [op |-> "PutObject", b |-> "b2", k |-> "k1", blob |-> "c2", ctype |-> "t2", meta |-> "none", tags |-> "none",
+      class |-> "none", cond |-> "none", cksum |-> "none"],
+     [op |-> "CreateUpload", b |-> "b2", k |-> "k2", ctype |-> "none", meta |-> "none", tags |-> "none",
+      class |-> "none", cktype |-> "none"] >>
+CoverCopies(sb) ==
+  LET q == SetToSeq(SCCombos) IN
+  [i \in 1..Len(q) |-> [op |-> "CopyObject", sb |-> sb, sk |-> "k1", svid |-> -1, b |-> "b2", k |-> "k2", mdir |-> "COPY",
+                        tdir |-> "COPY", ctype |-> "none", meta |-> "none", tags |-> "none", class |-> "none", sc |-> q[i]]]
+  \o [i \in 1..Len(q) |-> [op |-> "UploadPartCopy", sb |-> sb, sk |-> "k1", svid |-> -1, b |-> "b2", k |-> "k2", u |-> 1,
+                           n |-> 1, sc |-> q[i]]]
+SCCoverProgram == CoverPrefix \o CoverCopies("b1") \o CoverCopies("b2")
+SCCoverEmit == PrintT(ToJson([cover |-> SCCoverProgram, combos |-> Cardinality(SCCombos)]))
+
 CEmit == IF Len(hist) = GenDepth THEN PrintT(ToJson([config |-> gcfg, calls |-> hist, sits |-> sits])) ELSE TRUE
 =============================================================================
